@@ -46,8 +46,8 @@ def _job(args):
                 nv += 1
                 if len(vios) < MAX_V_PER_JOB:
                     vios.append(vv)
-        if len(samples) < 1 and j.get("sample") is not None:
-            samples.append(j["sample"])
+        if j.get("sample") is not None and (not samples or n in (17, 171)):
+            samples[:] = [j["sample"]]          # prefer a leaf from inside the job over the all-defaults first leaf
     if cap is not None and n + skipped >= cap:
         capped = True
     return dict(n=n, trans=trans, nontriv=nontriv, skipped=skipped, nv=nv, vios=vios, samples=samples,
